@@ -148,13 +148,15 @@ Qed.
 Lemma ccsc_run : forall ops c s, R c s -> cc_run c ops = sc_run s ops.
 Proof.
   intros ops. induction ops as [|o ops IH]; intros c s HR; [reflexivity|].
-  destruct o as [o| |].
+  destruct o as [o| | |k v].
   - cbn [cc_run sc_run]. destruct (sim_step c s o HR) as (s' & Hs & HR'). rewrite Hs.
     destruct (c_step c o) as [[c' r] ev]. simpl in *. rewrite (IH c' s' HR'). reflexivity.
   - cbn [cc_run sc_run]. pose proof HR as HR0. destruct HR as (Hl & Hd & HR).
     rewrite Hd, keys_proj. f_equal. apply IH. exact HR0.
   - cbn [cc_run sc_run]. pose proof HR as HR0. destruct HR as (Hl & Hd & HR).
     unfold alen. rewrite Hd, map_length. f_equal. apply IH. exact HR0.
+  - cbn [cc_run sc_run]. destruct (sim_step c s (CTake k None) HR) as (s' & Hs & HR'). rewrite Hs.
+    destruct (c_step c (CTake k None)) as [[c' r] ev]. simpl in *. rewrite (IH c' s' HR'). reflexivity.
 Qed.
 
 Theorem cache_holds_reference_keys_proof : forall limit ops,
